@@ -127,6 +127,17 @@ CHECKS = {
         note="The decoder is a hand model of what the pattern denotes; its tie to the regex is the differential run (ids, junk "
              "strings with newlines and digit runs). Known finding K1 (8-digit respins).",
         design="DESIGN.md section 6 C15"),
+    "C16": dict(
+        text="Coq theorems: C16_digest_chunking (feeding a hash object chunk by chunk - any chunk sizes - equals feeding the whole "
+             "content; the streaming law of hashlib objects is an explicit hypothesis), C16_chunks_cover_file (the read loop's "
+             "chunks concatenate to the content for every chunk size), C16_add_refuses_absolute, "
+             "C16_add_records_under_normpath, C16_typed_bare (every [checksums] value is typed on its own; nothing else is "
+             "accepted), C16_add_checksum_stable / C16_add_checksum_conflict. Tie: compute_checksum vs hashlib one-shot on real "
+             "files of sizes straddling the 1 MiB chunk for every algorithm available by name; normpath, Checksums.add and "
+             "Image.add_checksum op sequences vs the model; [checksums] sections mixing typed and bare digests loaded by the real "
+             "reader and by the model on the real parser's section table.",
+        note="hashlib and os.path.normpath are trusted/corresponded, not verified; the streaming hypothesis is hashlib's documented behaviour.",
+        design="DESIGN.md section 6 C16"),
     "C17": dict(
         text="Coq theorem C17_general_mirror: for every tree and every main-variant choice, whenever the writer produces [general], "
              "its family/version/name/arch/platforms/timestamp equal the [release] name and version, '<name> <version>', the "
